@@ -248,6 +248,9 @@ def body(ctx):
         run_op(ctx, prog, ex, op, viol)
     missing_ops(ctx, prog)
     open_channel(ctx, prog, ex, viol)
+    # what an operation returns names what later operations are sent for (a Queue's name, a Consumer's tag): exactly the reply's values
+    import c04
+    c04.api_returns(ctx, prog)
     for v in viol:
         if not v.get('reported'):
             ctx.inconclusive.append(f"C12 counterexample without native replay: {str(v)[:400]}")
